@@ -1629,7 +1629,34 @@ def oracle_c03(run, ops, impl):
     return out
 
 
+def cross_oracle_c03(all_runs):
+    """gspecnib and gspecgeth replay the same generated vm.StateDB call sequence (same seed) on Nibiru's real StateDB and on
+    go-ethereum's real one: a line on which the two implementations answer differently is a concrete failing input."""
+    out = []
+    by = {}
+    for (run, seed, ops, impl, model) in all_runs:
+        by[(run["model"], seed)] = (ops, impl)
+    for (m, seed), (ops, impl) in sorted(by.items()):
+        if m != "gspecnib" or ("gspecgeth", seed) not in by:
+            continue
+        gops, gimpl = by[("gspecgeth", seed)]
+        n = min(len(ops), len(gops), len(impl), len(gimpl))
+        for i in range(n):
+            if ops[i] != gops[i]:
+                break          # the sequences stopped being the same: nothing to compare beyond this point
+            if impl[i] != gimpl[i]:
+                start = max((j for j in range(i + 1) if ops[j].split()[1:2] == ["reset"]), default=0)
+                w = V("C03:statedb-call-differs-from-go-ethereum:%s" % (ops[i].split() + ["?", "?"])[1],
+                      {"line": i + 1, "op": ops[i], "nibiru": impl[i][:300], "go_ethereum": gimpl[i][:300],
+                       "calls_since_reset": ops[start:i + 1][-40:]})
+                w["seed"], w["model"] = seed, "gspecnib"
+                out.append(w)
+                break
+    return out
+
+
 PROPS["C03"] = {
+    "cross_oracle": cross_oracle_c03,
     "modules": ["NibiruProofs.C03"],
     "prefix": "C03_",
     "runs": [{"model": "gspecnib", "n_quick": 150, "n_thorough": 3000, "nontrivial": r"^P:"},
